@@ -174,7 +174,7 @@ class Adversary(object):
         conn._queue_message = _queue_message
 
 
-def adversary_script(p, role, post=None, holder=None):
+def adversary_script(p, role, post=None, holder=None, ckey=False):
     """post-handshake control traffic issued by the adversary (its messages
     pass through the mutator too) and a data exchange"""
     adv = p.c if role == "client" else p.s
@@ -192,7 +192,7 @@ def adversary_script(p, role, post=None, holder=None):
                     KeyUpdateMessageType.update_requested):
                 yield r
             yield from drive.awrite(adv, b"adv-data-2")
-            if role == "server" and vic._client_keypair:
+            if role == "server" and ckey:
                 for r in adv.request_post_handshake_auth():
                     yield r
         elif adv.heartbeat_can_send and adv.heartbeat_supported:
@@ -245,7 +245,8 @@ def run_one(sc, label, role, target=None, new=None, pre_inject=None,
     R.p = p
     R.fl = fl
     R.c_hs = R.s_hs = False
-    advp, vicp = adversary_script(p, role, post, holder)
+    advp, vicp = adversary_script(p, role, post, holder,
+                                  ckey=bool(getattr(fl, "ckey", None)))
 
     def cprog():
         yield from fl.client_gen(p.c)
@@ -320,7 +321,8 @@ def plan(ctx, sc, role, label):
                 # sample operators but always keep the bombs
                 always = ("zbomb", "ext_u16=", "psk_", "sni:", "snilist:",
                           "dertree_oid",
-                          "cke_premaster_len",
+                          "cke_premaster_len", "ext_last_value_unknown:16",
+                          "ext_first_value_unknown:16",
                           "dertree_empty:bitstr",
                           "dertree_empty:octstr", "dertree_trunc1:bitstr",
                           "ext_empty:51", "ext_empty:43", "ext_empty:10",
@@ -372,7 +374,8 @@ def make_cases(ctx):
                     yield "%s-%s-rec-%s-%d" % (name, role, atk, at), dict(
                         sc=name, role=role, label=label, atk=atk, at=at)
             # the same on the established connection
-            for atk in ("garbage_protected", "len_ffff", "unknown_type",
+            for atk in ("garbage_protected", "post_cert_request", "len_ffff",
+                        "unknown_type",
                         "oversize_plain", "empty_alert", "alert_3byte",
                         "ssl2_garbage", "fatal_alert"):
                 yield "%s-%s-rec-%s-post" % (name, role, atk), dict(
@@ -409,6 +412,12 @@ def record_attack(atk, rng):
                 yield r
         elif atk == "ssl2_garbage":
             raw(b"\x80\x20" + b"\x01" * 32)
+        elif atk == "post_cert_request":
+            # a CertificateRequest nobody asked for (TLS 1.3 framing: empty
+            # context, signature_algorithms extension)
+            body = b"\x00" + b"\x00\x08" + b"\x00\x0d\x00\x04\x00\x02\x08\x04"
+            for r in osend(Message(22, bytearray(wire.hs_msg(13, body)))):
+                yield r
         elif atk == "garbage_protected":
             raw(wire.record(23, ver, bytes(range(7, 7 + 80))))
         elif atk == "alert_1byte":
